@@ -334,6 +334,7 @@ class Real:
         from openfilter.filter_runtime.utils import adict
         self.np, self.Util, self.Frame, self.adict, self.video_in = np, Util, Frame, adict, video_in
         self.util = object.__new__(Util)      # execute_xforms & co. use no instance state
+        self._cfgs, self._proc_util = {}, None
         self._parsed = {}
         self._src = {}
         self.calls = 0
@@ -387,6 +388,23 @@ class Real:
             img.flags.writeable = False
         frame = self.Frame(img) if fmt == 'GRAY' else self.Frame(img, format=fmt)
         try:
+            parts = text.split(',')
+            if len(parts) >= 2 and self.calls % 2 == 0:
+                # the filter's own path: setup() + process() on a frame set, every other transformation written for topic
+                # 'main' only and the rest for all topics - the order of the configuration is the order of execution
+                mixed = ','.join(p_ + ';main' if i % 2 == 0 else p_ for i, p_ in enumerate(parts))
+                cfg = self._cfgs.get(mixed)
+                if cfg is None:
+                    cfg = self._cfgs[mixed] = self.Util.normalize_config(dict(id='c17', sources='tcp://localhost', xforms=mixed))
+                    if len(self._cfgs) > 20000:
+                        self._cfgs.clear()
+                u = self._proc_util
+                if u is None:
+                    u = self._proc_util = object.__new__(self.Util)
+                    u.setup(cfg)
+                u.xforms = cfg.xforms
+                out = u.process({'main': frame, 'other': self.Frame({'meta': 1})})['main']
+                return ('ok', out.image, out.format)
             xforms = self.parse(text)
             out = self.util.execute_xforms(self.adict(topic='main', frame=frame, xforms=xforms)).frame
             return ('ok', out.image, out.format)
